@@ -31,7 +31,7 @@ KINDS = ['add', 'scalar', 'multiply', 'unary', 'product', 'overlap', 'mpo_measur
 
 def cases(tier, seed):
     out = []
-    reps = 1 if tier == 'quick' else 4
+    reps = 1 if tier == 'quick' else 30
     for rep in range(reps):
         fac = {'famsym': list(range(len(FAM_SYM))), 'N': [1, 2, 3, 4, 5, 7], 'kind': KINDS, 'dtype': ['real', 'complex'], 'charge': ['zero', 'any']}
         for i, row in enumerate(cat.covering(fac, seed=seed * 37 + rep, strength=2)):
